@@ -394,6 +394,12 @@ def c2s(ctx, log, n):
             ctx.sample({'c2s_observation': log.obs[-1]})
 
 
+def gen(ctx, module, cfg):
+    """TLC's workers print the cases in an order that varies from run to run: sort them, so that everything the
+    driver derives from the position of a case (class rotation, seeded choices, samples) is reproducible"""
+    return sorted(ctx.generate(module, cfg), key=lambda c: json.dumps(c, sort_keys=True))
+
+
 def run(ctx):
     ctx.rule = ('S2C: every tree / (t, u, ignore) / (t, pattern) of the TLC-enumerated universes is built as a real nesting of '
                 'dict/Dict/dictattr (classes and insertion order drawn from the seed) and replayed through tree_items/keys/values, '
@@ -411,9 +417,10 @@ def run(ctx):
     ctx.extra['mechanism_models'] = ('MC_TreeHeap (dicts as heap objects): copy.copy(root) + in-place insertion violates OperandsIntact '
                                      '(expected, must-fail run); copying every branch satisfies it')
     log = Log(ctx, 1500 if ctx.quick else 20000)
-    s2c_single(ctx, log, ctx.generate('MC_Tree', 'MC_Tree_gen1.cfg' if ctx.quick else 'MC_Tree_gen1t.cfg'))
-    s2c_merge(ctx, log, ctx.generate('MC_Tree', 'MC_Tree_gen2.cfg' if ctx.quick else 'MC_Tree_gen2t.cfg'))
-    cases = ctx.generate('MC_Tree', 'MC_Tree_gen3.cfg' if ctx.quick else 'MC_Tree_gen3t.cfg')
+    cases = gen(ctx, 'MC_Tree', 'MC_Tree_gen.cfg' if ctx.quick else 'MC_Tree_gent.cfg')     # all three families in one TLC run
+    s2c_single(ctx, log, [c for c in cases if c['op'] == 'items'])
+    s2c_merge(ctx, log, [c for c in cases if c['op'] == 'update'])
+    cases = [c for c in cases if c['op'] == 'table']
     if ctx.quick:
         cases = [c for i, c in enumerate(cases) if i % 3 == ctx.seed % 3]
     s2c_table(ctx, log, cases)
